@@ -425,6 +425,7 @@ func (e *kvElection) becomeLeader(token string, rev uint64) {
 		)
 		promoteCtx, cancel := context.WithCancel(e.ctx)
 		e.termCancel = cancel
+		onPromote := e.onPromote // read under the mutex; the goroutine must not touch the field
 		e.wg.Add(1)
 		go func() {
 			defer e.wg.Done()
@@ -439,7 +440,7 @@ func (e *kvElection) becomeLeader(token string, rev uint64) {
 				}
 			}()
 			defer cancel()
-			e.onPromote(promoteCtx, token)
+			onPromote(promoteCtx, token)
 		}()
 	}
 }
@@ -611,13 +612,17 @@ func (e *kvElection) Stop() error {
 	case <-time.After(5 * time.Second):
 	}
 
-	if wasLeader && e.onDemote != nil {
+	e.mu.RLock()
+	onDemote := e.onDemote
+	e.mu.RUnlock()
+
+	if wasLeader && onDemote != nil {
 		log.Info("leader_demoted",
 			append(e.logWithContext(e.ctx),
 				zap.String("reason", "stop"),
 			)...,
 		)
-		e.onDemote()
+		onDemote()
 	}
 
 	return nil
@@ -743,7 +748,7 @@ func (e *kvElection) StopWithContext(ctx context.Context, opts StopOptions) erro
 		}
 	}
 
-	if wasLeader && e.onDemote != nil {
+	if wasLeader {
 		log := e.getLogger()
 		log.Info("leader_demoted",
 			append(e.logWithContext(ctx),
